@@ -11,7 +11,8 @@ THEOREMS = ['Tbox.C20.C20_weekly_earliest', 'Tbox.C20.C20_weekly_empty_mask', 'T
             'Tbox.C20.C20_stale_target_counterexample', 'Tbox.C20.C20_oneshot_once', 'Tbox.C20.C20_oneshot_expiry_idle', 'Tbox.C20.C20_disabled_never_fires',
             'Tbox.C20.C20_fired_was_enabled', 'Tbox.C20.C20_watch_alive', 'Tbox.C20.C20_destroy_unpatched_counterexample',
             'Tbox.C20.C20_world_callbacks_enabled', 'Tbox.C20.C20_once_per_instant', 'Tbox.C20.C20_refresh_in_early_callback_fixed', 'Tbox.C20.C20_world_targets_increase',
-            'Tbox.C20.C20_refresh_in_early_callback_counterexample', 'Tbox.C20.C20_cron_earliest', 'Tbox.C20.C20_cron_none', 'Tbox.C20.C20_cron_horizon',
+            'Tbox.C20.C20_refresh_in_early_callback_counterexample', 'Tbox.C20.C20_cron_earliest', 'Tbox.C20.C20_cron_none', 'Tbox.C20.C20_cron_horizon', 'Tbox.C20.C20_world_idle_not_served', 'Tbox.C20.C20_wall_step_not_seen_until_refresh',
+            'Tbox.C20.C20_refresh_rebases_on_now', 'Tbox.C20.C20_expiry_without_next_instant_goes_idle', 'Tbox.C20.C20_cron_reinit_rejected_keeps_expression',
             'Tbox.C20.wExec_inv']
 SOURCES = ['modules/alarm/alarm.cpp', 'modules/alarm/weekly_alarm.cpp', 'modules/alarm/oneshot_alarm.cpp',
            'modules/alarm/workday_alarm.cpp', 'modules/alarm/workday_calendar.cpp', 'modules/alarm/cron_alarm.cpp',
@@ -42,7 +43,9 @@ ASSUMPTIONS = ['instants are at least 368 days before the end of the uint32 epoc
                'lands in a calendar year more than 4 after the start year) — beyond it "no instant" is the specified answer of both sides']
 RULE = ('(1) pure: calculateNextLocalTimeSec of weekly/oneshot/workday probes on generated (seconds-of-day, mask, calendar, t) with t at day/week '
         'boundaries +-2 s over the whole uint32 range; (2) histories of up to 4 alarms on the real loop: new/init/tz/enable/disable/refresh/cleanup, '
-        'calendar updates, destruction, callback scripts (refresh/disable/enable of any alarm, destroy another alarm, calendar updates from inside callbacks), '
+        'calendar updates, destruction, callback scripts (refresh/disable/enable/cleanup/initialize/setTimezone of any alarm incl. the own one, destroy another alarm '
+        'also one due in the same pass, calendar updates from inside callbacks), cron alarms as stateful slots (initc, rejected re-initialisation, Feb-29 chain across the year horizon), '
+        'directed boundary families (wall step between arming and firing, the second after a fire, day/week wrap at 00:00:00 / 23:59:59, zones +-12h/+14h/half hours, all-days-off calendar, empty week mask), '
         'clock advances landing at target-1ms/target/target+1ms, monotonic-ahead skew, wall-clock jumps, distances up to > 1 year; (3) cron_next of the '
         'third-party evaluator against the reference on generated expressions (lists/ranges/steps/*) with t at month/year/leap boundaries; '
         'non-trivial = a callback fired (on time, early or late), or an arm farther than 2^32 ms, or a scan that went past today; distinct = distinct op text')
@@ -67,7 +70,7 @@ def ref_next(a, cal, t):
         cand = day * D + a['sod']
         if cand <= t: continue
         if a['kind'] == 'os': return cand
-        if a['kind'] == 'wk':
+        if a['kind'] in ('wk', 'cr'):
             if a['mask'] >> ((day + 4) % 7) & 1: return cand
         else:
             if is_workday(cal, day) == a['wd']: return cand
@@ -142,6 +145,15 @@ def gen_pure(rng):
     return ops
 
 
+def init_line(i, a):
+    """the (re-)initialisation op of slot i for its kind; cron slots: `sec min hour * * dow-list` carrying the same sod/mask"""
+    if a['kind'] == 'cr':
+        sod = a['sod'] % D
+        dow = '*' if a['mask'] == 127 else (','.join(str(k) for k in range(7) if a['mask'] >> k & 1) or '*')
+        return 'initc %d %d %d %d * * %s' % (i, sod % 60, sod // 60 % 60, sod // 3600, dow)
+    return 'init %d %d %s %d' % (i, a['sod'], mask_text(a['mask']) if a['kind'] == 'wk' else '-', 1 if a['wd'] else 0)
+
+
 def gen_history(rng, nsteps):
     ops = []
     wall = [WALL0]
@@ -165,7 +177,7 @@ def gen_history(rng, nsteps):
         set_wall((day * D + off) * 1000 + rng.choice([0, 1, 500, 998, 999, rng.randrange(1000)]))
     n = rng.choice([1, 1, 2, 3, 4])
     for i in range(n):
-        kind = rng.choice(['wk', 'wk', 'os', 'wd', 'wd'])
+        kind = rng.choice(['wk', 'wk', 'os', 'wd', 'wd', 'cr'])
         script = '-'
         if rng.random() < 0.4:
             acts = []
@@ -176,7 +188,10 @@ def gen_history(rng, nsteps):
                 elif r2 < 0.5: acts.append('dis%d' % j)
                 elif r2 < 0.65: acts.append('en%d' % j)
                 elif r2 < 0.75 and j != i: acts.append('del%d' % j)
-                elif r2 < 0.85: acts.append('cm%d' % rng.choice([0, 62, 127, rng.randrange(256)]))
+                elif r2 < 0.80: acts.append('cm%d' % rng.choice([0, 62, 127, rng.randrange(256)]))
+                elif r2 < 0.86: acts.append('cl%d' % j)
+                elif r2 < 0.90: acts.append('tz%d:%d' % (j, rng.choice([-720, -570, -300, 0, 330, 345, 480, 765, 840])))
+                elif r2 < 0.95: acts.append('in%d:%d:%s:%d' % (j, rng.choice([0, 1, D - 1, rng.randrange(D), D]), rng.choice(['1111111', '0000000', '1000001', '111']), rng.randrange(2)))
                 else:
                     day = wall[0] // 1000 // D
                     acts.append('cs' + ('+'.join('%d:%d' % (day + rng.randrange(0, 9), rng.randrange(2)) for _ in range(rng.randrange(0, 3))) or '-'))
@@ -193,10 +208,11 @@ def gen_history(rng, nsteps):
                 a['sod'] = (local + rng.choice([1, 2, 3, 10, 60, 3600, D - 1, 0, -1])) % D
             else:
                 a['sod'] = rng.randrange(D)
-            m = rng.choice([127, 127, 1 << rng.randrange(7), rng.randrange(1, 128)])
+            m = rng.choice([127, 127, 1 << rng.randrange(7), rng.randrange(1, 128), rng.randrange(128)])
+            if kind == 'wk' and rng.random() < 0.04: m = 0            # empty week mask: enable() must fail, nothing may spin
             a['mask'] = m
             a['wd'] = rng.random() < 0.6
-            ops.append('init %d %d %s %d' % (i, a['sod'], mask_text(m) if kind == 'wk' else '-', 1 if a['wd'] else 0))
+            ops.append(init_line(i, a))
         if rng.random() < 0.9:
             ops.append('en %d' % i); a['on'] = True
 
@@ -249,13 +265,16 @@ def gen_history(rng, nsteps):
         elif r < 0.92:
             a = al[i]
             a['sod'] = rng.randrange(D)
-            ops.append('init %d %d %s %d' % (i, a['sod'], mask_text(a['mask']) if a['kind'] == 'wk' else '-', 1 if a['wd'] else 0))
+            if a['kind'] == 'cr' and rng.random() < 0.4:
+                ops.append('initc %d %s' % (i, rng.choice(['60 * * * * *', '0 0 12 * 13 *', '0 0 0 32 * *', '5-3 * * * * *', '*/0 * * * * *'])))   # rejected: the old expression stays
+            else:
+                ops.append(init_line(i, a))
         elif r < 0.955:
             ops.append('cl %d' % i); al[i]['on'] = False
             if rng.random() < 0.7: ops.append('cb %d' % i)
             if rng.random() < 0.8:        # cleanup() forgets time zone / target / callback: re-initialise and enable again
                 a = al[i]; a['tz'] = 180
-                ops.append('init %d %d %s %d' % (i, a['sod'], mask_text(a['mask']) if a['kind'] == 'wk' else '-', 1 if a['wd'] else 0))
+                ops.append(init_line(i, a))
                 ops.append('en %d' % i); a['on'] = True
         elif r < 0.965:
             ops.append('del %d' % i)
@@ -268,6 +287,74 @@ def gen_history(rng, nsteps):
             ops.append('tz %d %d' % (i, a['tz']))
         else:
             ops.append('mono %d' % rng.randrange(0, 21))
+    return ops
+
+
+def gen_boundary(rng):
+    """directed families (round 5 audit): API calls from inside callbacks, wall-clock steps between arming and firing,
+    the second after a fire, same-pass deletion, extreme zones, day/week wrap, empty configurations, cron chains"""
+    fam = rng.randrange(10)
+    day = rng.randrange(10, 47000)
+    tzm = rng.choice([-720, -570, -300, 0, 0, 180, 330, 345, 480, 765, 840])
+    kind = rng.choice(['wk', 'wd', 'os', 'cr'])
+    sod_local = rng.choice([0, 1, D - 1, D - 2, 43200, rng.randrange(D)])
+    # UTC instant of the first target: local sod on some day, shifted by the zone
+    T = day * D + sod_local - tzm * 60
+    lead = rng.choice([1, 2, 59, 60, 3600, 86399])              # armed this many seconds before the target
+    ms = rng.choice([0, 1, 500, 999])
+    a = {'kind': kind, 'sod': sod_local, 'mask': 127, 'wd': True, 'tz': tzm}
+    pre = ['calmask 127'] if kind == 'wd' else []
+    head = lambda script: pre + ['new 0 %s %s' % (kind, script), 'tz 0 %d' % tzm, init_line(0, a), 'wall %d' % ((T - lead) * 1000 + ms), 'en 0']
+    to_fire = lead * 1000 - ms
+    if fam == 0:       # the callback calls the API of its own alarm
+        script = rng.choice(['dis0', 'en0', 'rf0', 'cl0', 'dis0,en0', 'cl0,in0:%d:1111111:1,en0' % ((sod_local + 5) % D), 'tz0:%d,rf0' % rng.choice([-720, 840, 330]),
+                             'in0:%d:1111111:1' % rng.randrange(D), 'dis0,in0:%d:1111111:1,en0' % ((sod_local + rng.choice([1, 2, 60])) % D), 'rf0,rf0', 'dis0,dis0', 'cl0,cl0'])
+        ops = head(script) + ['adv %d' % to_fire, 'adv 1', 'adv 999', 'adv %d' % (D * 1000), 'en 0', 'adv %d' % (D * 1000)]
+    elif fam == 1:     # one-shot re-enables itself from its callback (on time and on an early wake-up)
+        a['kind'] = 'os'
+        k = rng.choice([0, 0, 3, 20])
+        ops = ['new 0 os %s' % rng.choice(['en0', 'en0,en0', 'en0,rf0', 'in0:%d:-:1,en0' % ((sod_local + 7) % D)]), 'tz 0 %d' % tzm, init_line(0, a),
+               'wall %d' % ((T - lead) * 1000 + ms), 'en 0'] + (['mono %d' % k] if k else []) + ['adv %d' % max(0, to_fire - k), 'adv %d' % (k or 1), 'adv %d' % (D * 1000), 'adv %d' % (D * 1000)]
+    elif fam == 2:     # two alarms due in the same pass; the callback of one deletes / disables / cleans up the other
+        act = rng.choice(['del', 'dis', 'cl', 'rf'])
+        k2 = rng.choice(['wk', 'wd', 'os', 'cr'])
+        b = dict(a); b['kind'] = k2
+        ops = pre + (['calmask 127'] if k2 == 'wd' and not pre else []) + ['new 0 %s %s1' % (kind, act), 'new 1 %s %s0' % (k2, act), 'tz 0 %d' % tzm, 'tz 1 %d' % tzm, init_line(0, a), init_line(1, b),
+               'wall %d' % ((T - lead) * 1000 + ms), 'en 0', 'en 1', 'adv %d' % to_fire, 'calmask 62', 'adv %d' % (D * 1000), 'adv %d' % (D * 1000)]
+    elif fam == 3:     # wall clock stepped between arming and firing (timer stays on the monotonic delta), then refresh()
+        step = rng.choice([-1, -1000, -3600000, -86400000, 1, 1000, 3600000, 86400000, 3 * 86400000, -(lead * 1000), lead * 1000, lead * 1000 + 1])
+        w1 = max(0, (T - lead) * 1000 + ms + step)
+        ops = head('-') + ['wall %d' % w1, 'adv %d' % max(0, to_fire - 1), 'adv 1', 'adv 1000', rng.choice(['rf 0', 'dis 0', 'adv 0']), 'en 0', 'adv %d' % (D * 1000), 'adv %d' % (D * 1000)]
+    elif fam == 4 and rng.random() < 0.3:   # cleanup() clears the callback: expiries stay silent until setCallback() (single alarm: no order question)
+        ops = head('-') + ['adv %d' % to_fire, 'clx 0', init_line(0, a), 'tz 0 %d' % tzm, 'en 0', 'adv %d' % (D * 1000), 'adv %d' % (D * 1000), 'cb 0', 'adv %d' % (D * 1000)]
+    elif fam == 4:     # the second after a fire: refresh / disable+enable / re-init while now is still the served second
+        gap = rng.choice([0, 1, 500, 999, 1000])
+        ops = head('-') + ['adv %d' % to_fire] + (['adv %d' % gap] if gap else []) + rng.choice([['rf 0'], ['dis 0', 'en 0'], ['dis 0', init_line(0, a), 'en 0'], ['cl 0', init_line(0, a), 'tz 0 %d' % tzm, 'en 0'], ['en 0']]) + \
+              ['adv %d' % (999 - min(gap, 999)), 'adv 1000', 'adv %d' % (D * 1000)]
+    elif fam == 5:     # day / week wrap: single weekday, target at 00:00:00 or 23:59:59 local, armed one second before / at / after
+        a['kind'] = 'wk'; a['sod'] = rng.choice([0, D - 1]); a['mask'] = 1 << rng.randrange(7)
+        Tl = day * D + a['sod']
+        w0 = (Tl - tzm * 60 + rng.choice([-1, 0, 1, -D, D - 1])) * 1000 + rng.choice([0, 999])
+        ops = ['new 0 wk', 'tz 0 %d' % tzm, init_line(0, a), 'wall %d' % max(0, w0), 'en 0', 'adv 999', 'adv 1', 'adv %d' % (D * 1000), 'adv %d' % (6 * D * 1000), 'adv %d' % (D * 1000)]
+    elif fam == 6:     # nothing can match: all days off / empty week mask — enable() fails, a running alarm goes idle, nothing spins
+        if rng.random() < 0.5:
+            ops = ['calmask 0', 'calsp -', 'new 0 wd', init_line(0, dict(a, kind='wd')), 'en 0', 'rf 0', 'adv %d' % (D * 1000), 'calmask 62', 'en 0', 'calmask 0', 'adv %d' % (3 * D * 1000),
+                   'calmask 127', 'en 0', 'adv %d' % (D * 1000), 'calsp -']
+        else:
+            ops = ['new 0 wk', 'init 0 %d 0000000 1' % sod_local, 'en 0', 'adv %d' % (8 * D * 1000), 'init 0 %d 0000001 1' % sod_local, 'en 0', 'dis 0', 'init 0 %d 0000000 1' % sod_local, 'en 0', 'rf 0']
+    elif fam == 7:     # extreme zones: +-12 h, +14 h, half / quarter hours, applied before and after the local computation
+        z = rng.choice([-720, 840, -570, 330, 345, 765, -1440, 1440])
+        Tz = day * D + sod_local - z * 60
+        ops = ['new 0 %s' % kind] + pre + ['tz 0 %d' % z, init_line(0, a), 'wall %d' % max(0, (Tz - 1) * 1000), 'en 0', 'adv 999', 'adv 1', 'tz 0 %d' % rng.choice([-720, 840, 0]), 'adv %d' % (D * 1000), 'rf 0', 'adv %d' % (D * 1000)]
+    elif fam == 8:     # cron alarm on the real loop: Feb 29 chain across the year horizon; a rejected re-initialisation keeps the old expression
+        y = rng.choice([2024, 2028, 2092, 2096, 2096, 2000, 1972])
+        t0 = days_from_civil(y, 2, 29) * D
+        ops = ['new 0 cr %s' % rng.choice(['-', '-', 'rf0', 'dis0,en0']), 'tz 0 0', 'initc 0 0 0 0 29 2 *', 'wall %d' % ((t0 - 60) * 1000), 'en 0', 'adv 59999', 'adv 1', 'en 0', 'rf 0',
+               'initc 0 0 0 0 30 2 *', 'initc 0 0 0 0 32 2 *', 'en 0'] + ['adv 40000000000'] * 4 + ['en 0']
+    else:              # cron alarm: fields at their limits, enabled around the instant
+        expr = rng.choice(['59 59 23 31 12 *', '0 0 0 1 1 *', '59 59 23 * * 7', '0 0 0 * * 0', '*/59 */59 */23 */31 */12 */7', '0-59/59 0-59/59 0-23/23 1-31/30 1-12/11 0-7/7', '59/1 59/1 23/1 31/1 12/1 7/1'])
+        t0 = days_from_civil(rng.choice([2023, 2024, 2099]), 12, 31) * D + D - 1
+        ops = ['new 0 cr', 'tz 0 0', 'initc 0 %s' % expr, 'wall %d' % ((t0 - 2) * 1000 + 500), 'en 0', 'adv 1499', 'adv 1', 'adv 1000', 'adv 1000', 'adv %d' % (D * 1000)]
     return ops
 
 
@@ -382,7 +469,7 @@ def gen(rng, tier):
     # malformed stream: both sides must answer bad-op
     yield ['wk 1 1111111', 'wk x 1111111 5', 'wk 1 1111112 5', 'wk 1 1111111 4294967296', 'os 1', 'wd 1 2 62 - 5', 'wd 1 1 256 - 5',
            'wd 1 1 62 5:2 5', 'wd 1 1 62 5:1, 5', 'new 4 wk', 'new 0 cron', 'en 0', 'new 0 wk', 'new 0 wk', 'init 0 1 1111111', 'init 0 abc 1111111 1',
-           'tz 0 1441', 'tz 0 -1441', 'tz 0 05', 'adv 007', 'new 1 wk del1', 'new 1 wk rf9', 'new 1 wk rf0,,rf0', 'new 1 wk cs5:1+', 'cron * * * * *  5',
+           'tz 0 1441', 'tz 0 -1441', 'tz 0 05', 'adv 007', 'new 1 wk cl9', 'new 1 wk tz0', 'new 1 wk tz0:1441', 'new 1 wk in0:5:1111111', 'new 1 wk in0:5:2:1', 'new 1 cron', 'initc 0 * * * * *', 'initc 9 * * * * * *', 'initc 0 * * * * * MON', 'new 1 wk del1', 'new 1 wk rf9', 'new 1 wk rf0,,rf0', 'new 1 wk cs5:1+', 'cron * * * * *  5',
            'cron * * * * * * x', 'cron 08 * * * * * 5', 'cron 1-2-3 * * * * * 5', 'cron 1//2 * * * * * 5', 'cron */x * * * * * 5', 'cron , * * * * * 5', 'cron MON * * * * * 5', 'del 2', 'adv -1', 'adv 40000000001', 'wall 4294967296000', 'calmask 256', 'calsp 5', 'frob', 'dis 3', 'rf 2', 'cb 1']
     # directed
     yield ['wk 36000 1111111 1700000000', 'wk 0 0000000 1700000000', 'wk 86399 0000100 1699999999', 'os 0 86399', 'os 0 86400',
@@ -412,6 +499,8 @@ def gen(rng, tier):
         yield gen_history(rng, rng.choice([4, 8, 16, 30]))
     for _ in range(max(10, n // 8)):
         yield gen_far(rng)
+    for _ in range(n // 2):
+        yield gen_boundary(rng)
     for _ in range(n // 2):
         yield gen_cron(rng)
     for _ in range(n // 2):
